@@ -371,13 +371,15 @@ for _p in PROPS.values():
 
 # what later seeded rounds added to the level descriptions
 _MORE_LEVEL = {
-    "C01": "Every slice handed to an earlier call of a case is re-checked after every later call (ledger); windows of 4090..9000 frames see 3-6 calls; striped input channels may share caller storage (prefixes of one array, pieces of one flat array).",
+    "C01": "Every slice handed to an earlier call of a case is re-checked after every later call (ledger); windows of 4090..9000 frames see 3-6 calls; per-channel slices of writer and reader may be pieces of one caller block (planar, all but the last equal, two inner members exchanged, one kept elsewhere) or prefixes of one array (writer); one outer slice is reused by all the striped calls of a case.",
+    "C13": "Named element types that carry methods (BitDepth, String, Len, ...) are among the 32 types.",
+    "C18": "Every conversion is also measured in turns with two other instantiations of its function (convInTurns).",
     "C02": "Every window of a parent produced by a growing Append is sliced again (its capacity need not be whole frames): header and raw capacity unchanged, nested window equal to the direct cut.",
     "C11": "Pools without channels and zero-capacity pools whose buffers grow by less than a frame and are offered back are cases too.",
     "C19": "With no writers, readers also read everything striped, each channel as far as it has samples (partial last frame included).",
-    "C03": "Marathon cases: 300..70000 appends of short sources onto one header (shape checked at every step, contents at the end).",
+    "C03": "Marathon cases: 300..70000 appends of short sources onto one header (shape checked at every step, contents at the end). A quarter of the destinations come out of a pool allocator.",
     "C04": "The sweep fills buffers of 70000..200000 samples one sample at a time, and goes on beyond.",
-    "C05": "Same-type conversions are also run in place (a window onto itself, through one and through two headers): nothing may change.",
+    "C05": "Same-type conversions are also run in place (a window onto itself, through one and through two headers): nothing may change. NaN inputs include quiet and signalling patterns with the payload in the high or the low bits.",
     "C10": "Pooled buffers of 258..6000 samples with sparse single-sample writes far apart through a full window (gaps of untouched zeros).",
     "C12": "One Append between two windows of a parent of 66000..400000 samples (in place with the source before, overlapping and behind the region written; growing) is compared with copy/append on plain slices (Big cases).",
     "C15": "After every rejected conversion, Append and striped call the same operands are used again in calls with matching shapes, which must succeed with the expected effect.",
